@@ -28,7 +28,7 @@ import (
 )
 
 const backupSDL = `
-type Item { k: Int i: Int f: Float s: String b: Boolean d: DateTime bl: Blob j: JSON ai: [Int!] as: [String!] ab: [Boolean!] af: [Float!] nai: [Int] }
+type Item { k: Int i: Int f: Float s: String b: Boolean d: DateTime bl: Blob j: JSON ai: [Int!] as: [String!] ab: [Boolean!] af: [Float!] nai: [Int] di: Int @default(int: 7) ds: String @default(string: "dflt") }
 type Author { k: Int name: String rating: Int books: [Book] }
 type Book { k: Int title: String pages: Int author: Author }
 type Emp { k: Int name: String boss: Emp @primary @relation(name: "boss_minion") minion: Emp @relation(name: "boss_minion") }
@@ -66,6 +66,9 @@ func bkItemFields(r *Rng) map[string]string {
 	opt("ab", []string{`[]`, `[true, false]`})
 	opt("af", []string{`[]`, `[0.5, -1.25]`, `[1e10]`})
 	opt("nai", []string{`[]`, `[1, null, 3]`, `[null]`})
+	// fields with a default value: left out (the default applies), set, or explicitly null
+	opt("di", []string{"null", "null", "7", "0", "42"})
+	opt("ds", []string{"null", "null", `"dflt"`, `""`, `"other"`})
 	return f
 }
 
@@ -88,7 +91,7 @@ func gqlInput(fields map[string]string) string {
 }
 
 var bkSelect = map[string]string{
-	"Item":   "_docID k i f s b d bl j ai as ab af nai",
+	"Item":   "_docID k i f s b d bl j ai as ab af nai di ds",
 	"Author": "_docID k name rating",
 	"Book":   "_docID k title pages author_id",
 	"Emp":    "_docID k name boss_id",
